@@ -73,7 +73,7 @@ var c05Entries = []string{"LoadString", "LoadStringContext", "Load", "LoadContex
 
 var c05Faults = []string{"none", "none", "error", "type-error", "arity-error", "unbound", "stack-limit", "nesting-limit", "macro-limit", "step-budget", "cancel",
 	"panic-arg", "panic-in-handler", "panic-under-ignore-errors", "panic-in-map", "panic-in-macro", "error-in-handler", "in-package-then-fail", "rethrow-outside", "tail-iter-limit",
-	"empty-source", "cross-package-fail-mid", "cross-package-fail-mid-swallowed", "cross-package-macro-fail-mid"}
+	"empty-source", "cross-package-fail-mid", "cross-package-fail-mid-swallowed", "cross-package-macro-fail-mid", "bad-handler", "bad-handler-swallowed", "fail-in-binding-form"}
 
 // c05Effect returns the k-th effect statement of a step (atomic, followed by a
 // completion probe) and the same statement without probe for the twin.
@@ -137,6 +137,16 @@ func c05FaultForm(kind string, r *fw.RNG) string {
 		return fw.Pick(r, []string{"(other-pkg:fail-mid 1)", "(other-pkg:fail-mid-deep 2)", "(list 1 (other-pkg:fail-mid 3))"})
 	case "cross-package-macro-fail-mid":
 		return "(other-pkg:mac-fail-mid 1)"
+	case "bad-handler":
+		// the clause that matches has a handler expression that fails or is not a function
+		return fw.Pick(r, []string{"(handler-bind ((condition no-such-handler)) (error 'x \"boom\"))", "(handler-bind ((x 42)) (error 'x 1))",
+			"(handler-bind ((a (lambda (&rest e) 1)) (b (car 5))) (error 'b 1))", "(f1 (handler-bind ((condition (f2 'not-a-function))) (car 5)))",
+			"(handler-bind ((condition (lambda (c &rest a) (handler-bind ((condition 7)) (error 'second))))) (error 'first))"})
+	case "fail-in-binding-form":
+		// failures inside the parts of binding and control forms that are not plain bodies
+		return fw.Pick(r, []string{"(let ([a 1] [b (car 5)]) a)", "(let* ([a 1] [b (car a)]) b)", "(flet ((h (x) (car x))) (h 5))", "(labels ((h (x) (if (= x 0) (car 5) (h (- x 1))))) (list (h 3)))",
+			"(dotimes (i (car 5)) i)", "(dotimes (i 3) (if (= i 1) (car 5) i))", "(cond ((car 5) 1) (else 2))", "(macrolet ((m (x) (car 5))) (m 1))", "(funcall (lambda (&optional (a (car 5))) a))",
+			"(thread-first 5 (car))", "(foldl (lambda (a x) (car x)) 0 '(1 2))", "(stable-sort (lambda (a b) (car a)) (list 2 1))", "(apply car '(5))", "((lambda (x) (car x)) 5)"})
 	}
 	return "()"
 }
@@ -214,6 +224,9 @@ func c05Run(w *fw.W, idx int) {
 			// still run in the caller's package
 			swallowed = true
 			faultForm = fw.Pick(r, []string{"(ignore-errors (other-pkg:fail-mid 1))", "(handler-bind ((condition (lambda (c &rest a) 'h))) (other-pkg:fail-mid-deep 1))", "(ignore-errors (other-pkg:mac-fail-mid 1))"})
+		case "bad-handler-swallowed":
+			swallowed = true
+			faultForm = "(ignore-errors " + c05FaultForm("bad-handler", r) + ")"
 		default:
 			faultForm = c05FaultForm(fault, r)
 		}
